@@ -73,6 +73,10 @@ CHECKS = {
   text="Shape rule for all DiffEntry construction sites (ADD/DELETE/SAME/CHANGE argument shapes under the right equality facts; path names the reported element's own key or index), partial evaluation of the kind dispatcher over all 16 kind pairs and of the two mode dispatchers per enum member, absent-vs-null rule for pairing loops, both-sides rule for emptiness branches, exit-status non-interference and DifferConfig ladders. The Differ has no library-level test at all; completeness/exactly-once over documents is declined.",
   note="Trusted base: itertools.zip_longest, == on ruamel data.",
   technique="construction-site shape rules + partial evaluation (decision tables) + sentinel/one-sided-test rules over the AST"),
+ "C07": dict(
+  text="Escaping taint of every string concatenated into a reported path (only separators, literals, integer indexes and escape_path_section(text, own pathsep)); XOR truth table of each match test; complete decision table of Searches.search_anchor over (anchored, seen, search_anchors, include_aliases, matched, inverted) by partial evaluation; outcome class (skip / emit / search) of the search loop per AnchorMatches member for the sequence, map-value, map-key and set branches; duplicate check before recording. None of this code is executed by the baseline. Soundness/completeness over documents and re-resolution are declined.",
+  note="Trusted base: escape_path_section's alphabet (C02-D5); search_matches (C12).",
+  technique="taint-style composition rule for path text + partial evaluation (decision tables) + truth-table evaluation"),
 }
 
 NOT_BUILT = "check not built yet (framework under construction; will be claimed at clause level per DESIGN.md)"
